@@ -6,6 +6,7 @@ import (
 	"bytes"
 	"context"
 	"fmt"
+	fixgen "github.com/b2broker/simplefix-go/tests/fix44"
 	"math/rand"
 	"runtime"
 	"strconv"
@@ -68,12 +69,20 @@ func (h *recHandler) StopWithError(err error) {
 	default:
 	}
 }
-func (h *recHandler) CloseErrorChan()                              {}
-func (h *recHandler) Send(m simplefixgo.SendingMessage) error      { b, _ := m.ToBytes(); h.out <- b; return nil }
-func (h *recHandler) Context() context.Context                     { return h.ctx }
-func (h *recHandler) Stop()                                        { h.cancel() }
-func (h *recHandler) count() int                                   { h.mu.Lock(); defer h.mu.Unlock(); return len(h.got) }
-func (h *recHandler) all() [][]byte                                { h.mu.Lock(); defer h.mu.Unlock(); return append([][]byte(nil), h.got...) }
+func (h *recHandler) CloseErrorChan() {}
+func (h *recHandler) Send(m simplefixgo.SendingMessage) error {
+	b, _ := m.ToBytes()
+	h.out <- b
+	return nil
+}
+func (h *recHandler) Context() context.Context { return h.ctx }
+func (h *recHandler) Stop()                    { h.cancel() }
+func (h *recHandler) count() int               { h.mu.Lock(); defer h.mu.Unlock(); return len(h.got) }
+func (h *recHandler) all() [][]byte {
+	h.mu.Lock()
+	defer h.mu.Unlock()
+	return append([][]byte(nil), h.got...)
+}
 
 func randMsg(r *rand.Rand, id string) []byte {
 	types := []string{"0", "A", "D", "8", "V", "W", "X", "AE", "j", "ZZ"}
@@ -234,7 +243,7 @@ func waitFor(cond func() bool, d time.Duration, conns ...*wire.Conn) bool {
 
 func main() {
 	c := vk.Init("C04")
-	c.Rule("scenario i: 1..200 well-formed messages (any MsgType, 30..70000 bytes incl. single fields of 4000..70000 bytes, values containing '10=', fields 110/210/1010/9910) are concatenated and cut into read chunks by one of 13 strategies (all-in-one, one byte per read, random, message-aligned, coalescing, and a boundary at every offset 0..7 of every message's trailing CheckSum field), with feed timing {none, Gosched, 1 ms pauses}; delivered to (a) an Initiator with a recording handler that asserts one ServeIncoming at a time, (b) an Initiator with DefaultHandler + incoming callbacks, (c) an Acceptor with 1..8 simultaneous connections (arriving one at a time or all back to back before any handler exists) through the real handler factory, each message tagged (connection, counter); buffer sizes {0,1,10}. Outbound: 1..4 goroutines hand unique messages to Send/SendRaw; the peer-side capture is split by the reference splitter. Oracle: per connection delivered == sent (bytes, order, multiplicity), nothing from another connection, outbound stream == hand-off order (order seen by an outgoing ALL-handler under the handler's own lock; per-goroutine order for SendRaw). Long pauses: 3..6 messages whose stream stops for 0.7..1.3 s inside a value, inside the CheckSum tag or value, between fields or between messages (the scripted connection honours read deadlines, should the library set any). Write fault: 2..11 messages handed to SendRaw in order while one write takes only part of its message (cut anywhere, or inside the CheckSum field) and runs into a 30 ms write deadline, later writes being accepted: the captured stream must stay a prefix of the hand-offs. distinct = hash(partition signature, messages); non-trivial = >=2 messages or a boundary inside a CheckSum field")
+	c.Rule("scenario i: 1..200 well-formed messages (any MsgType, 30..70000 bytes incl. single fields of 4000..70000 bytes, values containing '10=', fields 110/210/1010/9910) are concatenated and cut into read chunks by one of 13 strategies (all-in-one, one byte per read, random, message-aligned, coalescing, and a boundary at every offset 0..7 of every message's trailing CheckSum field), with feed timing {none, Gosched, 1 ms pauses}; delivered to (a) an Initiator with a recording handler that asserts one ServeIncoming at a time, (b) an Initiator with DefaultHandler + incoming callbacks, (c) an Acceptor with 1..8 simultaneous connections (arriving one at a time or all back to back before any handler exists) through the real handler factory, each message tagged (connection, counter); buffer sizes {0,1,10}. Outbound: 1..4 goroutines hand unique messages to Send/SendRaw; the peer-side capture is split by the reference splitter. Oracle: per connection delivered == sent (bytes, order, multiplicity), nothing from another connection, outbound stream == hand-off order (order seen by an outgoing ALL-handler under the handler's own lock; per-goroutine order for SendRaw). Long pauses: 3..6 messages whose stream stops for 0.7..1.3 s inside a value, inside the CheckSum tag or value, between fields or between messages (the scripted connection honours read deadlines, should the library set any). Re-sent object: one generated message object handed to Send 3..14 times with changed content against an instantly or slowly reading peer; the stream must carry each hand-off as it was when handed off. Write fault: 2..11 messages handed to SendRaw in order while one write takes only part of its message (cut anywhere, or inside the CheckSum field) and runs into a 30 ms write deadline, later writes being accepted: the captured stream must stay a prefix of the hand-offs. distinct = hash(partition signature, messages); non-trivial = >=2 messages or a boundary inside a CheckSum field")
 	n := c.Pick(3000, 60000)
 	vk.Parallel(n, runtime.NumCPU(), func(i int) {
 		r := c.Rand("c04", int64(i))
@@ -637,6 +646,63 @@ func main() {
 		}(i)
 	}
 	swg.Wait()
+
+	// one message object handed to Send again and again with changed content while earlier hand-offs are still queued
+	// or being written (a slowly reading peer): the stream must carry every hand-off as it was at hand-off time
+	nro := c.Pick(60, 1200)
+	vk.Parallel(nro, runtime.NumCPU(), func(i int) {
+		r := c.Rand("c04-reused", int64(i))
+		buf := []int{0, 1, 10}[r.Intn(3)]
+		nsend := 3 + r.Intn(12)
+		conn := wire.NewConn("c04ro", false)
+		if r.Intn(3) > 0 {
+			conn.SetWriteDelay(time.Duration(100+r.Intn(400)) * time.Microsecond)
+		}
+		h := simplefixgo.NewInitiatorHandler(context.Background(), "35", buf)
+		ini := simplefixgo.NewInitiator(conn, h, buf, 5*time.Second)
+		done := make(chan struct{})
+		go func() { ini.Serve(); close(done) }()
+		obj := fixgen.CreateMarketDataRequestReject("ro-0")
+		obj.HeaderBuilder().SetFieldSenderCompID("S").SetFieldTargetCompID("T")
+		var want []byte
+		var handoffs [][]byte
+		desc := fmt.Sprintf("re-sent-object buf=%d: one message object handed to Send %d times with changed content", buf, nsend)
+		replay := map[string]interface{}{"scenario": desc, "index": i, "seed": c.Seed}
+		for k := 0; k < nsend; k++ {
+			obj.SetMDReqID(fmt.Sprintf("ro-%d-%s", k, strings.Repeat("x", r.Intn(12))))
+			obj.SetText(strings.Repeat("t", r.Intn(20)))
+			obj.HeaderBuilder().SetFieldMsgSeqNum(k + 1)
+			b, err := obj.ToBytes()
+			if err != nil {
+				c.Inconclusive("ToBytes: " + err.Error())
+				return
+			}
+			cp := append([]byte(nil), b...)
+			handoffs = append(handoffs, cp)
+			want = append(want, cp...)
+			if err := h.Send(obj); err != nil {
+				c.Inconclusive("Send: " + err.Error())
+				return
+			}
+		}
+		waitFor(func() bool { return len(conn.Written()) >= len(want) }, 5*time.Second, conn)
+		time.Sleep(2 * time.Millisecond)
+		got := conn.Written()
+		c.Eval(vk.Hash64([]byte(desc), []byte{byte(i), byte(i >> 8)}), true)
+		c.Count("reused_object_outbound_scenarios", 1)
+		wireMsgs, rest := fixref.SplitStream("10", got)
+		if len(rest) != 0 {
+			c.Violate("C04/outbound/re-sent-object/partial-message-on-wire", fmt.Sprintf("%s: %d trailing bytes that are not a whole message", desc, len(rest)), replay)
+		}
+		compare(c, "outbound/re-sent-object", handoffs, wireMsgs, replay)
+		ini.Close()
+		h.Stop()
+		conn.Close()
+		select {
+		case <-done:
+		case <-time.After(5 * time.Second):
+		}
+	})
 
 	// outbound stream under a write fault: the peer stops reading in the middle of one message (the write is cut short
 	// and runs into its deadline) and then reads again. Whatever the library does about the fault, the bytes the peer
